@@ -24,7 +24,16 @@ pub fn plan() -> Plan {
     hostile.name = "c08-router-close";
     hostile.hostile = true;
     hostile.w.bad = 4;
-    let profiles = vec![p, single, hostile];
+    // a broker that is full refuses a reconnect: the refused attempt must leave the saved session alone
+    let mut full = p.clone();
+    full.name = "c08-broker-full";
+    full.max_connections = 2;
+    full.clients = (3, 5);
+    full.w.connect = 20;
+    full.w.link_drop = 10;
+    full.w.disconnect_pkt = 6;
+    full.w.takeover = 0;
+    let profiles = vec![p, single, hostile, full];
     Plan {
         profiles,
         directed: vec![],
@@ -67,7 +76,7 @@ pub fn prop() -> Prop {
             level: "fault_enumeration",
             rule: "seeded histories in which most clients use persistent sessions and end them in every flavour (DISCONNECT, link drop, router-initiated close after a bad ack, take-over) at random points with forwarded-but-unacknowledged messages outstanding, others publishing meanwhile, 1-4 reconnect cycles with alternating clean flags; M-broker restarts each subscription's expected stream at its oldest unacknowledged QoS>0 element. A case counts as distinct and non-trivial when its sequence of operation kinds is new and it reached at least one named corner state.",
             assumptions: &["router stepped on one thread through verif hooks; link actors use the real LinkTx/LinkRx", "default segment sizes: backlog stays within retention"],
-            floors: &[("quiescent-point", 20), ("resume-session-present", 20), ("end-by-disconnect-packet", 50), ("end-by-link-failure", 50), ("end-by-router-close", 50), ("end-by-takeover", 50)],
+            floors: &[("refused-connect-with-saved-session", 10), ("quiescent-point", 20), ("resume-session-present", 20), ("end-by-disconnect-packet", 50), ("end-by-link-failure", 50), ("end-by-router-close", 50), ("end-by-takeover", 50)],
         },
         run,
         replay: Some(replay),
